@@ -74,14 +74,24 @@ def blocks(tier, seed):
     out = []
     for d in (1, 2, 3):
         for form in FORMS:
-            out.append({"dim": d, "form": form, "exps": [exps.start, exps.stop], "phase": seed % 3})
+            out.append({"dim": d, "form": form, "exps": [exps.start, exps.stop], "phase": seed % 3, "tier": tier})
+    # histories: the dimension-specialised factories requested in every order inside a fresh process, all of them used afterwards
+    import itertools
+
+    for perm in itertools.permutations((1, 2, 3)):
+        out.append({"factory_order": list(perm)})
     return out
 
 
 def cases(block):
+    if "factory_order" in block:
+        yield {"factory_order": block["factory_order"]}
+        return
     d, form = block["dim"], block["form"]
     # the seed selects an additional mantissa set that is enumerated completely as well
     extra = [[], [1.7, 4.1], [3.3, 9.9]][block["phase"]]
+    if block.get("tier") == "thorough":
+        extra = [1.7, 4.1, 3.3, 9.9, 5.0, 1.0000000000000002]
     yield {"dim": d, "form": form, "value": 0.0}
     for e in range(*block["exps"]):
         for m in MANT + extra:
@@ -109,8 +119,38 @@ def eq(a, b, rtol=1e-14):
     return bool(np.all(np.abs(a - b) <= rtol * np.maximum(np.abs(a), np.abs(b))))
 
 
+def run_factory_order(case, ctx):
+    from mcx import core
+
+    order = case["factory_order"]
+    vals = [0.0, 0.37, 2.5, 1e-6, 4e5]
+
+    def body():
+        from droplets.tools import spherical as sp
+
+        made = {}
+        for d in order:  # create all factories first (in this order), use them afterwards (in reverse order)
+            made[d] = (sp.make_radius_from_volume_compiled(d), sp.make_volume_from_radius_compiled(d), sp.make_surface_from_radius_compiled(d))
+        out = {}
+        for d in reversed(order):
+            rv, vr, sr = made[d]
+            out[d] = [(float(vr(x)), float(sr(x)), float(rv(vol_ref(x, d))), [float(y) for y in vr(np.array([x, 2 * x]))]) for x in vals]
+        return out
+
+    res = core.in_fork(body)
+    ctx.op(len(order) * len(vals) * 4)
+    ctx.count("factory-order-histories")
+    for d in order:
+        for x, (v, s_, r, va) in zip(vals, res[d]):
+            ok = eq(v, vol_ref(x, d)) and eq(s_, surf_ref(x, d)) and eq(r, x) and eq(va, [vol_ref(x, d), vol_ref(2 * x, d)])
+            ctx.check("C12.variants-agree", ok, {"factory_order": order, "dim": d, "value": x, "got": [v, s_, r, va], "want": [vol_ref(x, d), surf_ref(x, d), x]}, {"history": True})
+
+
 def run_case(case, ctx):
     from pde.grids.spherical import volume_from_radius as pde_vr
+
+    if "factory_order" in case:
+        return run_factory_order(case, ctx)
 
     from droplets import DiffuseDroplet, SphericalDroplet
     from droplets.tools import spherical as sp
@@ -219,4 +259,4 @@ def run_case(case, ctx):
 
 
 def expected_positive(tier):
-    return ["C12.formula", "C12.inverse", "C12.derivative", "C12.derivative-fd", "C12.variants-agree", "C12.droplet", "C12.setter", "C12.shape"]
+    return ["C12.formula", "C12.inverse", "C12.derivative", "C12.derivative-fd", "C12.variants-agree", "C12.droplet", "C12.setter", "C12.shape", "factory-order-histories"]
